@@ -75,12 +75,13 @@ def stateful_filters(ctx):
     return {k: sorted(v) for k, v in out.items()}
 
 
-def r5_stateful_not_shared(ctx):
-    ctx.rule("C10.R5", "a representation filter that owns a table grown while reading (Densify's feature->column look-up) is instantiated once per "
-                       "environment by the Environments shortcuts, never one instance shared through Environments.filter")
+def r5_stateful_not_shared(ctx, rule="C10.R5", extra=None, text=None):
+    ctx.rule(rule, text or ("a representation filter that owns a table grown while reading (Densify's feature->column look-up) is instantiated once per "
+                            "environment by the Environments shortcuts, never one instance shared through Environments.filter"))
     st = stateful_filters(ctx)
-    ctx.floor("C10.R5", "stateful representation filters (computed)", len(st), 1)
-    ctx.note("C10.R5 stateful filters: " + ", ".join(f"{k}.{'/'.join(v)}" for k, v in sorted(st.items())))
+    st.update(extra or {})
+    ctx.floor(rule, "stateful filters (computed)", len(st), 1)
+    ctx.note(f"{rule} stateful filters: " + ", ".join(f"{k}.{'/'.join(v)}" for k, v in sorted(st.items())))
     envs = ctx.model.cls(CORE, "Environments")
     n = 0
     for name, fn in sorted(envs.methods.items()):
@@ -90,7 +91,7 @@ def r5_stateful_not_shared(ctx):
             n += 1
             ctx.touch(CORE, f"Environments.{name}")
             anc = list(ancestors(c))
-            per_env = any(isinstance(a, (ast.ListComp, ast.GeneratorExp)) for a in anc)
+            per_env = any(isinstance(a, (ast.ListComp, ast.GeneratorExp)) or (isinstance(a, ast.For) and "env" in unparse(a.iter)) for a in anc)
             lam = next((a for a in anc if isinstance(a, ast.Lambda) or (isinstance(a, ast.FunctionDef) and a is not fn)), None)
             if lam is not None:
                 # the factory must be *called* inside a per-environment comprehension, and never elsewhere
@@ -98,9 +99,9 @@ def r5_stateful_not_shared(ctx):
                 fname = holder.targets[0].id if isinstance(holder, ast.Assign) and isinstance(holder.targets[0], ast.Name) else getattr(lam, "name", None)
                 calls = [k for k in walk_shallow(fn) if isinstance(k, ast.Call) and isinstance(k.func, ast.Name) and k.func.id == fname]
                 per_env = bool(calls) and all(any(isinstance(a, (ast.ListComp, ast.GeneratorExp)) for a in ancestors(k)) for k in calls)
-            ctx.ob("C10.R5", CORE, f"Environments.{name}", c, f"{call_name(c)}(...) is constructed once per environment (inside the per-environment comprehension)", per_env,
+            ctx.ob(rule, CORE, f"Environments.{name}", c, f"{call_name(c)}(...) is constructed once per environment (inside the per-environment comprehension)", per_env,
                    detail={"state": st[call_name(c).split(".")[-1]]})
-    ctx.floor("C10.R5", "construction sites of stateful filters in Environments", n, 1)
+    ctx.floor(rule, "construction sites of stateful filters in Environments", n, 1)
 
 
 def r6_rechunk_by_current_row(ctx):
